@@ -12,12 +12,12 @@ package c10
 
 import (
 	"fmt"
-	"runtime"
 	"sort"
 	"strings"
 	"sync"
 	"sync/atomic"
 	"testing"
+	"testing/synctest"
 	"time"
 
 	"github.com/codelaboratoryltd/bng/pkg/nat"
@@ -255,6 +255,17 @@ func TestPropConcurrentDup(t *testing.T) {
 	dir := t.TempDir()
 	rapid.Check(t, func(rt *rapid.T) {
 		cfg := genRoomyCfg().Draw(rt, "cfg")
+		// Size rotation under the real clock (this test parks callers on a mutex and cannot run in a bubble; no
+		// compression: its goroutine could not be joined).  A history writes <= 12 records within one clock
+		// second: while two rotations in one second lose a file (KF-C10-4) MaxFileSize is kept above half of
+		// that, so that at most one rotation happens.
+		if rapid.IntRange(0, 2).Draw(rt, "rotate?") > 0 {
+			if vstat.IsListed(sigRotSameSecond) {
+				cfg.MaxFileSize = rapid.SampledFrom([]int64{1900, 2100, 2500}).Draw(rt, "maxFileSize")
+			} else {
+				cfg.MaxFileSize = rapid.SampledFrom([]int64{100, 250, 400, 700, 1000, 1900, 2500}).Draw(rt, "maxFileSize")
+			}
+		}
 		gate := newGate(allocatedMsg)
 		e := newEnv(rt, dir, cfg, zap.New(gate))
 		defer e.close()
@@ -384,14 +395,14 @@ func TestPropConcurrentDup(t *testing.T) {
 			}
 		}
 		if !dead {
-			recs, err := e.readNew(true)
+			st, err := e.readAll(true, 0)
 			if err != nil {
 				dead = vstat.Fail(rt, sigLogUnparsable, "%v", err)
 			} else {
-				dead = checkLogMultiset(rt, cfg, recs, held, wantA, wantR, hist)
+				dead = checkLogMultiset(rt, cfg, st.recs, held, wantA, wantR, hist)
 			}
 		}
-		cls := []string{"conc:dup", "cfg:" + cfg.Class}
+		cls := append([]string{"conc:dup", "cfg:" + cfg.Class}, e.rotClasses()...)
 		if dupNew {
 			cls = append(cls, "dup:new-subscriber")
 		}
@@ -426,24 +437,28 @@ type holdIv struct {
 
 // TestPropConcurrentDisjoint: 2-3 goroutines, each owning its own subscribers, run generated
 // allocate/deallocate lists against one manager in parallel.
+//
+// The case runs inside a testing/synctest bubble (generated outside): every goroutine sleeps one virtual second
+// before each of its operations, so all of them wake at the same instant and their calls overlap for real, while
+// the logger (size rotation, compression goroutines, optionally its own flush loop) sees a clock the harness owns.
 func TestPropConcurrentDisjoint(t *testing.T) {
 	vstat.Checks(1200, 30000)
 	dir := t.TempDir()
 	rapid.Check(t, func(rt *rapid.T) {
 		cfg := genRoomyCfg().Draw(rt, "cfg")
-		e := newEnv(rt, dir, cfg, nil)
-		defer e.close()
 		g := rapid.IntRange(2, 3).Draw(rt, "goroutines")
 		exercise := rapid.IntRange(0, 3).Draw(rt, "exerciseKF1") == 0
 		allocOnly := vstat.IsListed(sigOverlapCount) && !exercise
 		lists := make([][]cOp, g)
 		anyDealloc := false
+		total := 0
 		for i := 0; i < g; i++ {
 			var own []int
 			for s := i; s < nSubs; s += g {
 				own = append(own, s)
 			}
 			n := rapid.IntRange(1, 14).Draw(rt, "n")
+			total += n
 			for j := 0; j < n; j++ {
 				op := cOp{Alloc: true, Sub: rapid.SampledFrom(own).Draw(rt, "sub")}
 				if !allocOnly && rapid.IntRange(0, 2).Draw(rt, "dealloc?") == 0 {
@@ -453,6 +468,72 @@ func TestPropConcurrentDisjoint(t *testing.T) {
 				lists[i] = append(lists[i], op)
 			}
 		}
+		// records one clock second can see: the g operations of a tick plus whatever a flush finds buffered
+		// (bulk: the port-block buffer holds BufSize/10 records; per-allocation: BufSize records when the flush
+		// loop runs, otherwise everything is written by the final flush)
+		bulk, buf := cfg.Bulk, cfg.BufSize
+		genLogOpts(rt, &cfg, func(int) int {
+			switch {
+			case bulk:
+				return buf/10 + g + 1
+			case cfg.Started:
+				return buf + g + 1
+			}
+			return total
+		})
+		cfg.FlushEvery = 1
+		var r disjointResult
+		synctest.Test(t, func(*testing.T) { r = execDisjoint(dir, cfg, g, lists, anyDealloc) })
+		if r.sig != "" {
+			vstat.Fail(rt, r.sig, "%s", r.msg)
+		}
+		cls := append([]string{"conc:disjoint", fmt.Sprintf("goroutines:%d", g), "cfg:" + cfg.Class}, r.rot...)
+		if anyDealloc {
+			cls = append(cls, "with-deallocations")
+		} else {
+			cls = append(cls, "allocate-only")
+		}
+		if r.simultaneous {
+			cls = append(cls, "blocks-held-simultaneously")
+		}
+		if r.sig != "" {
+			cls = append(cls, "kf-hit")
+		}
+		parts := []any{"conc-disjoint", cfg.String()}
+		for _, l := range lists {
+			parts = append(parts, fmt.Sprint(l))
+		}
+		ls := lists
+		vstat.Case(true, vstat.Hash(parts...), func() any {
+			return map[string]any{"test": "conc-disjoint", "config": cfg.String(), "lists": fmt.Sprint(ls)}
+		}, cls...)
+	})
+}
+
+type disjointResult struct {
+	sig, msg     string
+	simultaneous bool
+	rot          []string
+}
+
+// execDisjoint runs inside the bubble; the first violation is returned as a value.
+func execDisjoint(dir string, cfg natCfg, g int, lists [][]cOp, anyDealloc bool) (res disjointResult) {
+	fail := func(sig, f string, a ...any) bool {
+		if res.sig == "" {
+			res.sig, res.msg = sig, fmt.Sprintf(f, a...)
+		}
+		return true
+	}
+	var ht harnessT
+	e := newEnv(&ht, dir, cfg, nil)
+	if e == nil {
+		fail("C10/harness", "%s", ht.msg)
+		return
+	}
+	e.inBubble = true
+	defer e.close()
+	e.start()
+	{
 		rs, re, pps := cfg.eff()
 		var clock atomic.Int64
 		type gres struct {
@@ -475,6 +556,11 @@ func TestPropConcurrentDisjoint(t *testing.T) {
 				since := map[int]int64{}
 				<-start
 				for _, op := range lists[i] {
+					// everybody wakes at the same virtual instant; seconds 0 mod 5 belong to the flush loop's ticker
+					time.Sleep(time.Second)
+					if !cfg.Prone && cfg.Started && int(time.Since(seqBase)/time.Second)%5 == 0 {
+						time.Sleep(time.Second)
+					}
 					if op.Alloc {
 						a, err := e.m.AllocateNAT(privIP(op.Sub, false))
 						now := clock.Add(1)
@@ -533,6 +619,7 @@ func TestPropConcurrentDisjoint(t *testing.T) {
 		}
 		close(start)
 		wg.Wait()
+		e.settle()
 		hist := func() string {
 			var sb strings.Builder
 			for i := range out {
@@ -550,7 +637,7 @@ func TestPropConcurrentDisjoint(t *testing.T) {
 		wantA, wantR := map[int]int{}, map[int]int{}
 		for i := range out {
 			if out[i].sig != "" && !dead {
-				dead = vstat.Fail(rt, out[i].sig, "%s\nconfig: %v\n%s", out[i].msg, cfg, hist())
+				dead = fail(out[i].sig, "%s\nconfig: %v\n%s", out[i].msg, cfg, hist())
 			}
 			all = append(all, out[i].ivs...)
 			for s, b := range out[i].held {
@@ -569,16 +656,15 @@ func TestPropConcurrentDisjoint(t *testing.T) {
 			}
 			return all[i].sub < all[j].sub
 		})
-		simultaneous := false
 		for i := 0; i < len(all) && !dead; i++ {
 			for j := i + 1; j < len(all) && !dead; j++ {
 				a, b := all[i], all[j]
 				if a.sub == b.sub || a.from >= b.to || b.from >= a.to {
 					continue
 				}
-				simultaneous = true
+				res.simultaneous = true
 				if overlaps(a.b, b.b) {
-					dead = vstat.Fail(rt, overlapSig, "s%d held %v and s%d held %v at the same time\nconfig: %v\n%s", a.sub, a.b, b.sub, b.b, cfg, hist())
+					dead = fail(overlapSig, "s%d held %v and s%d held %v at the same time\nconfig: %v\n%s", a.sub, a.b, b.sub, b.b, cfg, hist())
 				}
 			}
 		}
@@ -588,48 +674,62 @@ func TestPropConcurrentDisjoint(t *testing.T) {
 				failedEarly = true
 			}
 		}
+		ct := &capT{fail: fail}
 		if !dead && !failedEarly {
-			live, d := checkLiveTable(rt, cfg, e.m, hist, overlapSig)
-			dead = d
+			live, d := checkLiveTable(ct, cfg, e.m, hist, overlapSig)
+			dead = d || res.sig != ""
 			if !dead {
 				if len(live) != len(held) {
-					dead = vstat.Fail(rt, sigConcFinal, "final table %v, subscribers hold %v\nconfig: %v\n%s", live, held, cfg, hist())
+					dead = fail(sigConcFinal, "final table %v, subscribers hold %v\nconfig: %v\n%s", live, held, cfg, hist())
 				}
 				for s, b := range held {
 					if !dead && live[s] != b {
-						dead = vstat.Fail(rt, sigConcFinal, "GetAllocation(s%d)=%v, the subscriber holds %v\nconfig: %v\n%s", s, live[s], b, cfg, hist())
+						dead = fail(sigConcFinal, "GetAllocation(s%d)=%v, the subscriber holds %v\nconfig: %v\n%s", s, live[s], b, cfg, hist())
 					}
 				}
 			}
 			if !dead {
-				recs, err := e.readNew(true)
+				// the final flush gets a clock second of its own
+				time.Sleep(time.Second)
+				if !cfg.Prone && cfg.Started && int(time.Since(seqBase)/time.Second)%5 == 0 {
+					time.Sleep(time.Second)
+				}
+				e.settle()
+				st, err := e.readAll(true, 2)
 				if err != nil {
-					dead = vstat.Fail(rt, sigLogUnparsable, "%v", err)
+					if cfg.Prone && e.sawRotated {
+						dead = fail(sigRotSameSecond, "%v\nconfig: %v\n%s", err, cfg, hist())
+					} else {
+						dead = fail(sigLogUnparsable, "%v\nconfig: %v\n%s", err, cfg, hist())
+					}
 				} else {
-					dead = checkLogMultiset(rt, cfg, recs, held, wantA, wantR, hist)
+					dead = checkLogMultiset(ct, cfg, st.recs, held, wantA, wantR, hist) || res.sig != ""
+					if cfg.Prone && e.sawRotated && res.sig == sigConcLog {
+						// several rotations shared a clock second in this case: the loss is the listed finding
+						res.sig = sigRotSameSecond
+					}
 				}
 			}
 		}
-		cls := []string{"conc:disjoint", fmt.Sprintf("goroutines:%d", g), "cfg:" + cfg.Class}
-		if anyDealloc {
-			cls = append(cls, "with-deallocations")
-		} else {
-			cls = append(cls, "allocate-only")
+		res.rot = e.rotClasses()
+	}
+	return
+}
+
+// capT adapts the value-returning failure recorder of a bubble to the helpers that report through vstat.Fail.
+type capT struct {
+	fail func(sig, f string, a ...any) bool
+}
+
+func (c *capT) Helper() {}
+func (c *capT) Fatalf(f string, a ...any) {
+	msg := fmt.Sprintf(f, a...)
+	sig := "C10/unclassified"
+	if strings.HasPrefix(msg, "VIOLATION sig=") {
+		rest := strings.TrimPrefix(msg, "VIOLATION sig=")
+		if i := strings.Index(rest, ":"); i > 0 {
+			sig, msg = rest[:i], strings.TrimSpace(rest[i+1:])
 		}
-		if simultaneous {
-			cls = append(cls, "blocks-held-simultaneously")
-		}
-		if dead {
-			cls = append(cls, "kf-hit")
-		}
-		parts := []any{"conc-disjoint", cfg.String()}
-		for _, l := range lists {
-			parts = append(parts, fmt.Sprint(l))
-		}
-		ls := lists
-		vstat.Case(true, vstat.Hash(parts...), func() any {
-			return map[string]any{"test": "conc-disjoint", "config": cfg.String(), "lists": fmt.Sprint(ls)}
-		}, cls...)
-		runtime.Gosched()
-	})
+	}
+	c.fail(sig, "%s", msg)
 }
